@@ -273,7 +273,7 @@ prop("C14", "exploration",
      {"quick": 2000, "thorough": 20000},
      ["methods that only check the token for API consistency (accounts, post_tx, get_stored_tx, set_active_account) and pure readers are only required to leave the store unchanged",
       "start_updater's own return value is a don't-care (the refresh it attempts fails inside the thread)"],
-     required_hist=["wrong-token:invalid-mask", "right-token:wrote-state", "differential:equal-throughout", "closed-wallet:refused", "reopened:works-with-new-token", "tokens-of-two-wallets-differ"])
+     required_hist=["wrong-token:invalid-mask", "right-token:wrote-state", "differential:equal-throughout", "closed-wallet:refused", "reopened:works-with-new-token", "tokens-of-two-wallets-differ", "updater:started-with-a-wrong-token:right-token-refresh-still-works", "updater:started-with-the-right-token-then-wallet-reopened:right-token-refresh-still-works"])
 
 prop("C16", "exploration",
      "chain histories produced by the history engine (2 wallets x 2 or 3 accounts, sends, invoices, late locks, self-sends, cancels before broadcast, coinbases to "
